@@ -141,6 +141,8 @@ package keeper
 //@ ensures [C07,C01] charged_price_is_the_fee: err == NoErr && pricingOf(raw, binding.ServiceName, binding.Provider).Price[0].Denom == baseDenom
 //@      ==> result0 == priceCoins(raw, ctxTime(ctx), consumer, binding.ServiceName, binding.Provider)
 //@ ensures [C11] no_error_in_base_denom: pricingOf(raw, binding.ServiceName, binding.Provider).Price[0].Denom == baseDenom ==> err == NoErr
+//@ checks [C07,C01] charged_price_is_the_fee_when_quoted_in_another_token: err == NoErr && pricingOf(raw, binding.ServiceName, binding.Provider).Price[0].Denom != baseDenom
+//@      ==> result0 == priceCoins(raw, ctxTime(ctx), consumer, binding.ServiceName, binding.Provider)
 
 // ---------------------------------------------------------------- request-context lifecycle (C09, C05, C10, C11)
 //@ func (Keeper).CheckAuthority
